@@ -1,2 +1,157 @@
-From Coq Require Import Reals List.
+(* C14  Periodic coordinates and angular data interpolate across the wrap.
+   Only statements; every proof is [exact lemma].  Models: OSU.Model.Interp (periodic branches of
+   enclosing_points_1d / interpolation_weights_1d) and OSU.Model.Periodic
+   (_periodic_data_interpolator, interpolate_periodic); fmod / wrapped_difference / atan2 in
+   OSU.Lib.InterpAuxDefs. *)
+From Coq Require Import Reals ZArith List Arith Lra.
+From OSU.Lib Require Import InterpAuxDefs InterpAux.
 From OSU.Model Require Import Interp Periodic.
+From OSU.Proofs Require Import Interp Periodic.
+Import ListNotations.
+Open Scope R_scope.
+
+(* Python's float modulo: range, periodicity, uniqueness *)
+Theorem fmod_range : forall x p, 0 < p -> 0 <= fmod x p < p.
+Proof. exact fmod_range. Qed.
+
+Theorem fmod_periodic : forall x p k, 0 < p -> fmod (x + IZR k * p) p = fmod x p.
+Proof. exact fmod_shift. Qed.
+
+Theorem fmod_unique : forall x p r k, 0 < p -> 0 <= r < p -> x = r + IZR k * p -> fmod x p = r.
+Proof. exact fmod_unique. Qed.
+
+(* wrapped_difference(delta, P, discont): an equivalent value in [discont - P, discont) *)
+Theorem wrapped_difference_spec : forall d P disc, 0 < P ->
+  disc - P <= wrapdiff d P disc < disc /\ exists k : Z, wrapdiff d P disc = d + IZR k * P.
+Proof. intros d P disc HP. split; [exact (wrapdiff_range d P disc HP)|exact (wrapdiff_congr d P disc)]. Qed.
+
+(* targets any number of periods apart: same neighbours, same weights, same result
+   (every grid, every NaN pattern, both modes, plain and angular data) *)
+Theorem periodic_shift : forall xp rows x k P nearest np, 0 < P ->
+  interp_axis1 xp rows (x + IZR k * P) (Some P) nearest np = interp_axis1 xp rows x (Some P) nearest np.
+Proof. exact periodic_shift. Qed.
+
+Theorem periodic_shift_angular : forall xp rows x k P nearest np Pd, 0 < P ->
+  interp_axis1_pd xp rows (x + IZR k * P) (Some P) nearest np Pd
+  = interp_axis1_pd xp rows x (Some P) nearest np Pd.
+Proof. exact periodic_shift_pd. Qed.
+
+(* N axes (track points): each periodic coordinate may be moved by its own number of periods *)
+Theorem periodic_shift_nd : forall grids periods data ks pt nearest, Forall pos_period periods ->
+  interp_nd grids periods data (shift_pt periods ks pt) nearest = interp_nd grids periods data pt nearest.
+Proof. exact interp_nd_shift. Qed.
+
+Theorem periodic_shift_nd_angular : forall grids periods data ks pt nearest Pd, Forall pos_period periods ->
+  interp_nd_pd grids periods data (shift_pt periods ks pt) nearest Pd
+  = interp_nd_pd grids periods data pt nearest Pd.
+Proof. exact interp_nd_pd_shift. Qed.
+
+(* every target has two cyclic neighbours i, (i+1) mod n, and a weight t in [0,1); the target
+   reduced into [xp0, xp0+P) lies in the bin, also in the bin that spans the wrap *)
+Theorem periodic_bracket : forall xp P x, pgrid xp P ->
+  let n := length xp in
+  let x2 := fmod (x - hd0 xp) P + hd0 xp in
+  let ii := enclosing xp x (Some P) in
+  exists t, frac xp x ii (Some P) false false = Some t /\ 0 <= t < 1 /\
+    (fst ii < n)%nat /\ snd ii = ((fst ii + 1) mod n)%nat /\
+    (exists m : Z, x = x2 + IZR m * P) /\
+    ((fst ii + 1 < n)%nat ->
+       rnth xp (fst ii) <= x2 < rnth xp (fst ii + 1) /\
+       t = (x2 - rnth xp (fst ii)) / (rnth xp (fst ii + 1) - rnth xp (fst ii))) /\
+    ((fst ii + 1 = n)%nat ->
+       last0 xp <= x2 < hd0 xp + P /\
+       t = (x2 - last0 xp) / (hd0 xp + P - last0 xp)).
+Proof. exact periodic_bracket. Qed.
+
+Theorem wrap_bin_weights : forall xp P x, pgrid xp P ->
+  exists t, frac xp x (enclosing xp x (Some P)) (Some P) false false = Some t /\ 0 <= t < 1 /\
+            w_lo (Some t) = Some (1 - t) /\ 0 < 1 - t <= 1.
+Proof. exact wrap_bin_weights. Qed.
+
+(* no target is out of range: finite data give a finite value between the two cyclic neighbours *)
+Theorem periodic_in_range : forall xp rows P x np j, pgrid xp P -> (j < np)%nat ->
+  (forall i, (i < length xp)%nat -> all_some (nth i rows []) = true) ->
+  let ii := enclosing xp x (Some P) in
+  let f0 := oget (nth (fst ii) rows []) j in
+  let f1 := oget (nth (snd ii) rows []) j in
+  exists t, 0 <= t < 1 /\
+    nth j (interp_axis1 xp rows x (Some P) false np) None = Some ((1 - t) * f0 + t * f1) /\
+    Rmin f0 f1 <= (1 - t) * f0 + t * f1 <= Rmax f0 f1.
+Proof. exact periodic_in_range. Qed.
+
+(* angular data: unit-vector mean of two non antipodal angles with weights (1-w, w) lies on the
+   SHORTER arc (cross products have the sign of the wrapped difference, positive component along
+   the bisector, non zero) *)
+Theorem unit_mean_short_arc : forall P a b w, 0 < P -> 0 <= w <= 1 ->
+  let d := wrapdiff (b - a) P (P / 2) in
+  d <> - (P / 2) ->
+  let al := a * to_rad P in
+  let be := b * to_rad P in
+  let re := (1 - w) * cos al + w * cos be in
+  let im := (1 - w) * sin al + w * sin be in
+  - (P / 2) < d < P / 2 /\
+  (0 <= d -> 0 <= cos al * im - sin al * re /\ 0 <= re * sin be - im * cos be) /\
+  (d <= 0 -> cos al * im - sin al * re <= 0 /\ re * sin be - im * cos be <= 0) /\
+  0 < re * (cos al + cos be) + im * (sin al + sin be) /\
+  0 < re * re + im * im.
+Proof. exact unit_mean_short_arc. Qed.
+
+(* ... and the returned angle represents that vector and lies in [0, P) *)
+Theorem angle_represents_vector : forall P re im, 0 < P -> (re <> 0 \/ im <> 0) ->
+  let th := angle_of (re, im) P in
+  0 <= th < P /\
+  re = sqrt (re * re + im * im) * cos (th * to_rad P) /\
+  im = sqrt (re * re + im * im) * sin (th * to_rad P).
+Proof. exact angle_of_spec. Qed.
+
+(* the model's result between two present neighbours IS the angle of that weighted mean *)
+Theorem angular_between : forall xp rows x i np j Pd,
+  asc xp -> (i + 1 < length xp)%nat -> rnth xp i <= x < rnth xp (i + 1) ->
+  all_some (nth i rows []) = true -> all_some (nth (i + 1) rows []) = true -> (j < np)%nat ->
+  let t := (x - rnth xp i) / (rnth xp (i + 1) - rnth xp i) in
+  let a := oget (nth i rows []) j in
+  let b := oget (nth (i + 1) rows []) j in
+  nth j (interp_axis1_pd xp rows x None false np Pd) None
+  = Some (angle_of ((1 - t) * cos (a * to_rad Pd) + t * cos (b * to_rad Pd),
+                    (1 - t) * sin (a * to_rad Pd) + t * sin (b * to_rad Pd)) Pd).
+Proof. exact pd_between. Qed.
+
+(* direction variables come back in [0, 360) (any corner list: any number of axes, NaN pattern) *)
+Theorem direction_range_0_360 : forall cs np P j v, 0 < P ->
+  nth j (interp_corners_periodic cs np P) None = Some v -> 0 <= v < P.
+Proof. exact direction_range. Qed.
+
+(* interpolate_periodic (data frames, Track.interpolate): shortest-arc linear,
+   result == f0 + t * wrap(f1 - f0) modulo P, |wrap| <= P/2, in [discont - P, discont) *)
+Theorem interp_periodic_short_arc : forall xp fp x P fdisc left right i f0 f1,
+  asc xp -> 0 < P -> (i + 1 < length xp)%nat -> rnth xp i <= x < rnth xp (i + 1) ->
+  onth fp i = Some f0 -> onth fp (i + 1) = Some f1 ->
+  let t := (x - rnth xp i) / (rnth xp (i + 1) - rnth xp i) in
+  let d := wrapdiff (f1 - f0) P (P / 2) in
+  let disc := match fdisc with Some c => c | None => P / 2 end in
+  0 <= t < 1 /\ - (P / 2) <= d < P / 2 /\ (exists m : Z, d = f1 - f0 + IZR m * P) /\
+  exists r, interp_periodic xp fp x None (Some P) fdisc left right = Some r /\
+            disc - P <= r < disc /\ exists k : Z, r = f0 + t * d + IZR k * P.
+Proof. exact interp_periodic_short_arc. Qed.
+
+Theorem interp_periodic_outside : forall xp fp x fper fdisc left right,
+  asc xp -> (1 <= length xp)%nat ->
+  (x < hd0 xp -> interp_periodic xp fp x None fper fdisc left right = owd left fper fdisc) /\
+  (last0 xp < x -> interp_periodic xp fp x None fper fdisc left right = owd right fper fdisc).
+Proof. exact interp_periodic_outside. Qed.
+
+(* ---- non-vacuity ---- *)
+Example dir_grid_pgrid : pgrid [0; 90; 180; 270] 360.
+Proof.
+  unfold pgrid. split; [|split; [cbn; Lia.lia|split; [lra|split; [cbn; lra|split]]]].
+  - intros i j [Hij Hj]. cbn [length] in Hj.
+    destruct i as [|[|[|[|i]]]]; destruct j as [|[|[|[|j]]]]; cbn; try lra; exfalso; Lia.lia.
+  - intros i Hi. cbn [length] in Hi. destruct i as [|[|[|i]]]; cbn; try lra; exfalso; Lia.lia.
+  - cbn. lra.
+Qed.
+
+(* 350 and 10 degrees are not antipodal: wrapped difference is +20 *)
+Example seam_pair_not_antipodal : wrapdiff (10 - 350) 360 (360 / 2) = 20.
+Proof.
+  apply (wrapdiff_unique (10 - 350) 360 (360 / 2) 20 (-1)%Z); [lra|lra|simpl IZR; lra].
+Qed.
